@@ -16,6 +16,7 @@ import (
 
 	dtpb "github.com/google/fhir/go/proto/google/fhir/proto/r4/core/datatypes_go_proto"
 	"github.com/verily-src/fhirpath-go/fhirpath"
+	"github.com/verily-src/fhirpath-go/fhirpath/compopts"
 	"github.com/verily-src/fhirpath-go/fhirpath/evalopts"
 	"github.com/verily-src/fhirpath-go/fhirpath/system"
 	"github.com/verily-src/fhirpath-go/internal/fhir"
@@ -554,6 +555,25 @@ func compileGuarded(src string, opts ...fhirpath.CompileOption) (e *fhirpath.Exp
 }
 
 // evalWith compiles and evaluates src on the resources with the given variables.
+// addFnV / envVarV: the two spellings the API offers for the same option - compopts.AddFunction
+// and the deprecated fhirpath.WithFunction, evalopts.EnvVariable and the deprecated
+// fhirpath.WithConstant.  They are documented as aliases, so every check passes its options
+// through both, alternating on a number taken from the case (never on a clock or a counter
+// shared between cases).
+func addFnV(v int, name string, fn any) fhirpath.CompileOption {
+	if v%2 == 1 {
+		return fhirpath.WithFunction(name, fn)
+	}
+	return compopts.AddFunction(name, fn)
+}
+
+func envVarV(v int, name string, val any) fhirpath.EvaluateOption {
+	if v%2 == 1 {
+		return fhirpath.WithConstant(name, val)
+	}
+	return evalopts.EnvVariable(name, val)
+}
+
 func evalWith(src string, res []fhir.Resource, vars map[string]any, copts ...fhirpath.CompileOption) evalOut {
 	e, cerr, pan, st := compileGuarded(src, copts...)
 	if pan != "" {
@@ -571,8 +591,8 @@ func evalWith(src string, res []fhir.Resource, vars map[string]any, copts ...fhi
 		names = append(names, k)
 	}
 	sort.Strings(names)
-	for _, k := range names {
-		eopts = append(eopts, evalopts.EnvVariable(k, vars[k]))
+	for i, k := range names {
+		eopts = append(eopts, envVarV(len(src)+i, k, vars[k]))
 	}
 	eopts = append(eopts, evalopts.OverrideTime(fixedNow)) // no wall clock inside a property
 	var out evalOut
